@@ -361,7 +361,98 @@ def entity_silent_end(proc):
     return json.loads(out.decode().strip().split('\n')[-1])
 
 
+def endless_case(case):
+    """a peer whose bytes keep coming without ever completing a PDU (a header announcing 1 GiB, then body for ever): every
+    pass must still end, ARTIM must still be looked at (Sta2: the connection is dropped when it expires) and a stop request
+    must still be seen"""
+    from pynetdicom2 import pdu
+    r = scen.Runner('acceptor', scen.default_acceptor_user())
+    r.settle()
+    if case['state'] == 6:
+        r.feed(scen.rq_pdu().encode()); r.settle()
+        if r.p.state != 6:
+            return None if r.p.state == 1 else 'the association could not be established (Sta%d)' % r.p.state
+    reads = {'n': 0}
+
+    def more():
+        reads['n'] += 1
+        if reads['n'] > 3000:
+            raise s2.WouldBlockForever('the pass is still reading after %d segments: it never looks at anything else while '
+                                       'bytes keep arriving' % (reads['n'] - 1))
+        r.sock.inbox.append(more)
+        return b'\x00' * 700
+    head = bytes([1 if case['state'] == 2 else 4, 0]) + (1 << 30).to_bytes(4, 'big')
+    r.feed(head)
+    r.sock.inbox.append(more)
+    for k in range(60):
+        reads['n'] = 0
+        r.step()
+        if r.tr.blocked or r.tr.crash:
+            break
+        if k == 30:
+            r.advance(11)
+    s = r.summary()
+    if s['blocked']:
+        return 'Sta%d, endless incomplete PDU: %s' % (case['state'], s['blocked'])
+    if s['crash']:
+        return 'Sta%d, endless incomplete PDU: the loop died: %s' % (case['state'], s['crash'])
+    if case['state'] == 2 and (s['state'] != 1 or not s['closed']):
+        return ('Sta2, the peer keeps sending an A-ASSOCIATE-RQ that never ends: ARTIM expired 30 passes ago and the provider is '
+                'in Sta%d with the connection %s' % (s['state'], 'closed' if s['closed'] else 'open'))
+    return None
+
+
+def flood_case(case):
+    """a user that is slow to read: many requests arrive and nobody takes the indications off the queue; a stop request
+    must still complete (run() on a real thread)"""
+    import threading
+    import time
+    from pynetdicom2 import dulprovider
+    r = scen.Runner('acceptor', lambda x: [])
+    r.settle()
+    r.feed(scen.rq_pdu().encode()); r.settle()
+    r.user(scen.ac_pdu()); r.settle()
+    if r.p.state != 6:
+        return 'the association could not be established (Sta%d)' % r.p.state
+    for k in range(case['n']):
+        for raw in scen.wire(scen.echo_rq(k + 1), 1, 16384):
+            r.feed(raw)
+    p = r.p
+    p._budget = 10 ** 15
+    p._is_killed.clear()
+    s2.SELECT_SLEEP = 0.002
+    try:
+        th = threading.Thread(target=lambda: _swallow(p.run), daemon=True)
+        th.start()
+        t0 = time.time()
+        while r.sock.inbox and time.time() - t0 < 3:
+            time.sleep(0.01)
+        time.sleep(0.1)
+        done = threading.Event()
+
+        def killer():
+            dulprovider.DULServiceProvider.kill(p)
+            done.set()
+        threading.Thread(target=killer, daemon=True).start()
+        if not done.wait(3):
+            p._killed = True
+            p._is_killed.set()
+            return ('kill() did not return within 3 s: %d requests had arrived and the user had not read the indications yet '
+                    '(%d were queued)' % (case['n'], p.to_service_user.qsize()))
+        th.join(3)
+        if th.is_alive():
+            p._killed = True
+            return 'kill() returned but the loop is still running (%d unread indications)' % p.to_service_user.qsize()
+        return None
+    finally:
+        s2.SELECT_SLEEP = 0.0
+
+
 def replay(case):
+    if case.get('flood'):
+        return flood_case(case)
+    if case.get('endless'):
+        return endless_case(case)
     if case.get('entity_silent'):
         return entity_silent_end(entity_silent_start())
     conv = conversations()[case['conversation']]
@@ -377,7 +468,7 @@ def run(chk):
                 'silent for ever after every turn (clock advanced past ARTIM), a transport write failing during every turn, the peer not reading for half a minute during every turn (a blocking send just takes longer), a stop '
                 'requested at every quiescent point (run() in a real thread: a stop() that succeeds ends the loop and only in the idle, closed state; kill() returns - also after the loop has ended with an exception); '
                 'oracle: no pass blocks, the loop does not die, final state idle, socket closed and dropped, ARTIM stopped, '
-                'the user told when an association had been indicated; and a real accepting entity on loopback TCP whose peer never sends its first PDU (closed at ARTIM); non-trivial = faults that strike mid-conversation')
+                'the user told when an association had been indicated; a peer whose bytes keep coming without ever completing a PDU (Sta2, Sta6); and a real accepting entity on loopback TCP whose peer never sends its first PDU (closed at ARTIM); non-trivial = faults that strike mid-conversation')
     chk.trusted += ['harness/s2.py: a recv() on a blocking socket with nothing to read is reported as blocking for ever',
                     'OS behaviour assumed: sendall() and connect() return (or raise) in bounded time']
     convs = conversations()
@@ -403,6 +494,25 @@ def run(chk):
                 chk.violation('C13:%s:%s' % (fault[0], v[:25]),
                               '%s, %s at turn %d offset %d: %s' % (name, fault[0], fault[1], fault[2], v),
                               {'conversation': name, 'fault': list(fault)})
+    fc = {'flood': True, 'n': 120}
+    try:
+        v = flood_case(fc)
+    except Exception as e:  # pylint: disable=broad-except
+        common.raise_for(common.describe_exc(e))
+    chk.case(repr(fc), True, {'120 requests unread, then kill()': True})
+    chk.count('flood')
+    if v and not (common.timing_verdict(v) and not (flood_case(fc) and flood_case(fc))):
+        chk.violation('C13:flood', v, fc)
+    for st in (2, 6):
+        ec = {'endless': True, 'state': st}
+        try:
+            v = endless_case(ec)
+        except Exception as e:  # pylint: disable=broad-except
+            common.raise_for(common.describe_exc(e))
+        chk.case(repr(ec), True, {'endless incomplete PDU': True, 'state': st})
+        chk.count('endless')
+        if v:
+            chk.violation('C13:endless:%d' % st, v, ec)
     v = entity_silent_end(ent)
     chk.case('entity-silent', True, {'entity_silent': 'real accepting entity, peer never sends its first PDU'})
     chk.count('entity-silent')
